@@ -1563,6 +1563,8 @@ func TestVerifC16(t *testing.T) {
 	// with different certificates
 	c16UnicodeStreams(out, rnd)
 	c16PrepareStreams(t, out, rnd)
+	// round 6: the percent-encoding layers of the DoH request target
+	c16TargetStreams(out, rnd)
 	// round 4: histories of requests and reconfigurations on a running server
 	c16hStreams(t, out, rnd)
 }
